@@ -122,8 +122,8 @@ def run(ctx, R, tier):
                 n403 += 1
                 R.check(ok, "C20-R1", "refusal:%s" % ("key" if is_key else "pattern"), "the refusal edge answers 403 and returns", f.loc(n.ast),
                         "the refusal branch does not answer 403 and return")
-    if n403 < 2:
-        raise AnalysisError("process_pyro_request: key / pattern refusal branches not found (%d)" % n403)
+    R.check(n403 >= 2, "C20-R1", "refusal:both-present", "both refusal branches (key, pattern) exist", f.loc(),
+            "only %d of the two refusal branches (wrong key -> 403, name outside the pattern -> 403) is left" % n403)
     hp = ctx.calls_to(f, GW + ".return_homepage")
 
     def empty_path(atom, pol):
@@ -168,8 +168,14 @@ def run(ctx, R, tier):
         return pol is True and isinstance(atom, ast.Call) and isinstance(atom.func, ast.Attribute) and atom.func.attr == "startswith" and atom.args and \
             isinstance(atom.args[0], ast.Constant) and atom.args[0].value == "pyro/"
 
+    from ..engine.context import locals_assigned
+    methvars = set(locals_assigned(app, lambda v: isinstance(v, ast.Call) and isinstance(v.func, ast.Attribute) and v.func.attr == "get" and v.args and
+                                   isinstance(v.args[0], ast.Constant) and v.args[0].value == "REQUEST_METHOD"))
+    if not methvars:
+        raise AnalysisError("pyro_app: the local holding REQUEST_METHOD vanished")
+
     def get_or_post(atom, pol):
-        if isinstance(atom, ast.Compare) and len(atom.ops) == 1 and isinstance(atom.ops[0], ast.In) and unparse(atom.left) == "method":
+        if isinstance(atom, ast.Compare) and len(atom.ops) == 1 and isinstance(atom.ops[0], ast.In) and unparse(atom.left) in methvars:
             okc, v = ctx.const(atom.comparators[0], app)
             vals = set(v) if okc and isinstance(v, (tuple, list)) else ({v} if okc and isinstance(v, str) else None)
             if isinstance(atom.comparators[0], (ast.Tuple, ast.List)):
